@@ -3,6 +3,7 @@ package vegeta_test
 import (
 	"bytes"
 	"fmt"
+	"io"
 	"net/http"
 	"net/http/httptest"
 	"strconv"
@@ -35,6 +36,10 @@ type c05Net struct {
 	// TailMS > 0: the final response's body comes in two halves, the second this much later, and only MaxBody(8)
 	// bytes are captured: the exchange still lasts until the body has been read to its end
 	TailMS int `json:",omitempty"`
+	// BodyKB > 0: the targets carry a request body of that size, sent chunked if Chunked; the server starts reading it
+	// only after its service time, so most of the upload happens while the handler is running
+	BodyKB  int  `json:",omitempty"`
+	Chunked bool `json:",omitempty"`
 }
 
 func runC05Net(c c05Net) error {
@@ -46,6 +51,9 @@ func runC05Net(c c05Net) error {
 		seq, _ := strconv.ParseUint(r.Header.Get("X-Vegeta-Seq"), 10, 64)
 		a := time.Now()
 		time.Sleep(time.Duration(c.ServiceMS) * time.Millisecond)
+		if n, _ := io.Copy(io.Discard, r.Body); n != int64(c.BodyKB)<<10 && r.Method == "POST" {
+			w.WriteHeader(http.StatusBadRequest)
+		}
 		var hop int
 		if _, err := fmt.Sscanf(r.URL.Path, "/hop/%d", &hop); err == nil && hop > 0 {
 			mu.Lock()
@@ -76,10 +84,14 @@ func runC05Net(c c05Net) error {
 	}))
 	defer srv.Close()
 	atk := vegeta.NewAttacker(vegeta.Workers(uint64(c.Workers)), vegeta.MaxWorkers(uint64(c.Workers)), vegeta.MaxConnections(c.MaxConnections),
-		vegeta.Connections(c.Connections), vegeta.KeepAlive(c.KeepAlive), vegeta.HTTP2(c.HTTP2), vegeta.Timeout(20*time.Second), vegeta.Redirects(c.Redirects), vegeta.MaxBody(map[bool]int64{true: 8, false: -1}[c.TailMS > 0]))
+		vegeta.Connections(c.Connections), vegeta.KeepAlive(c.KeepAlive), vegeta.HTTP2(c.HTTP2), vegeta.Timeout(20*time.Second), vegeta.Redirects(c.Redirects), vegeta.MaxBody(map[bool]int64{true: 8, false: -1}[c.TailMS > 0]), vegeta.ChunkedBody(c.Chunked))
+	target := vegeta.Target{Method: "GET", URL: srv.URL + fmt.Sprintf("/hop/%d", c.Hops)}
+	if c.BodyKB > 0 {
+		target.Method, target.Body = "POST", bytes.Repeat([]byte("upload: "), c.BodyKB<<10/8)
+	}
 	before := time.Now()
 	var results []*vegeta.Result
-	for r := range atk.Attack(vegeta.NewStaticTargeter(vegeta.Target{Method: "GET", URL: srv.URL + fmt.Sprintf("/hop/%d", c.Hops)}), stopAfterPacer{uint64(c.Hits)}, 0, "c05net") {
+	for r := range atk.Attack(vegeta.NewStaticTargeter(target), stopAfterPacer{uint64(c.Hits)}, 0, "c05net") {
 		results = append(results, r)
 	}
 	what := fmt.Sprintf("%+v", c)
@@ -118,14 +130,17 @@ func TestC05RealTransport(t *testing.T) {
 		t.Skip()
 	}
 	vh.ShrinkTime("5s")
-	vh.Check(t, 4, 60, func(t *rapid.T) {
+	vh.Check(t, 8, 80, func(t *rapid.T) {
 		c := c05Net{Workers: rapid.IntRange(1, 8).Draw(t, "workers"), Hits: rapid.IntRange(4, 24).Draw(t, "hits"), ServiceMS: rapid.SampledFrom([]int{0, 5, 20, 40}).Draw(t, "service"),
 			MaxConnections: rapid.SampledFrom([]int{0, 1, 2, 4}).Draw(t, "maxconns"), Connections: rapid.SampledFrom([]int{1, 2, 10000}).Draw(t, "conns"),
 			KeepAlive: rapid.Bool().Draw(t, "keepalive"), HTTP2: rapid.Bool().Draw(t, "http2"), Redirects: 10}
 		if rapid.IntRange(0, 2).Draw(t, "tail") == 0 {
 			c.TailMS = rapid.SampledFrom([]int{20, 60}).Draw(t, "tailms")
 		}
-		if rapid.Bool().Draw(t, "redirected") {
+		if rapid.IntRange(0, 2).Draw(t, "upload") == 0 {
+			c.BodyKB, c.Chunked = rapid.SampledFrom([]int{1, 4, 5, 64, 1024, 8192}).Draw(t, "bodykb"), rapid.IntRange(0, 2).Draw(t, "chunked") != 0
+			c.Hits = min(c.Hits, 8)
+		} else if rapid.Bool().Draw(t, "redirected") {
 			c.Hops = rapid.IntRange(1, 3).Draw(t, "hops")
 			c.Redirects = rapid.SampledFrom([]int{3, 10}).Draw(t, "redirects")
 		}
